@@ -456,6 +456,12 @@ def bld_parse_trace(trace):
         if s.startswith("!"):
             out.append(("", [], [], s))
             continue
+        if s.startswith("G="):
+            v = s[2:].split("!")[0]
+            rest = s[2 + len(v):]
+            bad = {"early": "!graceful-stop-completed-with-connections-in-progress", "never": "!graceful-stop-never-completed"}.get(v, "")
+            out.append(("G", [], [], bad + rest))
+            continue
         m = re.match(r"^(\S+?)=([^/]*)/a([\d.]*)(.*)$", s)
         if not m:
             return None
@@ -495,6 +501,10 @@ def bld_pred(which):
                     return "step %d (%s): %s" % (k, op or "end", notes)
             if notes and "C08" in which:
                 return "step %d (%s): %s" % (k, op or "end", notes)
+            if notes and "C06" in which and ("graceful-stop" in notes or "did-not-stop" in notes):
+                return "step %d (%s): %s" % (k, op or "end", notes)
+            if op == "G":
+                continue
             if not op:
                 continue
             if op[0] in "KJ":
